@@ -228,6 +228,18 @@ static int run_fn() {
             sf.AppendFile( &in );
             r << "ok cnt=" << im.InstanceCount() << " " << obs( in );
             im.DeleteInstances();
+        } else if( fn == "recover" ) {
+            // STEPread of an entity without attributes: `(`, token separator, one character; unless that is `)` the
+            // `);` recovery scan runs from there
+            std::istringstream in( bytes );
+            InstMgr im;
+            SDAI_Application_instance * o = reg.ObjCreate( "Bare" );
+            if( !o || o == ENTITY_NULL ) { r << "no-entity"; }
+            else {
+                o->STEPread( 1, 0, &im, in, NULL, true, false );
+                r << "ok " << obs( in );
+                delete o;
+            }
         } else if( fn == "finddata" ) {
             std::istringstream in( bytes );
             InstMgr im; SF sf( reg, im );
